@@ -128,7 +128,8 @@ def selftest_tables():
 # --------------------------------------------------------------------------------------------
 
 def _is_int_list(v):
-    return isinstance(v, list) and all(isinstance(a, int) and not isinstance(a, bool) for a in v)
+    # a cell has four corners: longer answers are never scanned (they are reported as *_point)
+    return isinstance(v, list) and all(isinstance(a, int) and not isinstance(a, bool) for a in v[:5])
 
 
 def _cell(c):
@@ -146,9 +147,12 @@ def eval_unit(part, lib, patt, shm, cfg, warm=None):
         base["warm"] = warm
 
     def viol(sub, extra, detail):
+        if part.nviol >= part.MAXV:          # beyond the recorded ones only the count matters
+            part.nviol += 1
+            return
         case = dict(base)
         case.update(extra)
-        part.violation(sub, case, detail)
+        part.violation(sub, case, detail() if callable(detail) else detail)
 
     try:
         p = lib.MeshPatt(lib.Perm(patt), sorted(shading))
@@ -189,9 +193,17 @@ def eval_unit(part, lib, patt, shm, cfg, warm=None):
                 viol("lemma1", {"cell": c}, {"not a list of ints": repr(got)})
                 continue
             part.add(1, 1 if got else 0)
+            if len(got) > 4:
+                viol("lemma1_point", {"cell": c}, {"answer has %d values, first" % len(got): got[:5]})
+                got = got[:5]
+            part.outcomes.add(("can_shade", k, tuple(got)))
             if got:
                 part.bump("lemma1_positive")
                 w = unsound(X.cbit(k, c))
+                if w is None and k >= 1 and shading:
+                    part.sample({"pattern": patt, "shading": sorted(shading), "can_shade": c, "answer": got,
+                                 "texts of S<=%d containing it, before = after shading" % cfg["N"]:
+                                     bin(base_set).count("1")}, cap=1)
                 if w is not None:
                     viol("lemma1", {"cell": c}, {"answer": got, "contains p but not p.shade(cell)": w})
                 ok = X.corner_point_values(patt, [c])
@@ -221,6 +233,10 @@ def eval_unit(part, lib, patt, shm, cfg, warm=None):
                 viol("simul", {"cells": [a, b]}, {"not a list of ints": repr(got)})
                 continue
             part.add(1, 1 if got else 0)
+            if len(got) > 4:
+                viol("simul_point", {"cells": [a, b]}, {"answer has %d values, first" % len(got): got[:5]})
+                got = got[:5]
+            part.outcomes.add(("can_simul_shade", k, tuple(got)))
             if got:
                 part.bump("simul_positive")
                 w = unsound(X.cbit(k, a) | X.cbit(k, b))
@@ -237,9 +253,13 @@ def eval_unit(part, lib, patt, shm, cfg, warm=None):
         try:
             tab = p.shadable_boxes()
             entries = []
+            limit = 12 * len(cells) + 1          # 4 corners x (cell + two pairs) per cell
             for key, lst in tab.items():
-                for boxes in lst:
+                for boxes in lst[:limit]:
                     entries.append((key, tuple(_cell(c) for c in boxes)))
+            if sum(len(lst) for lst in tab.values()) >= limit:
+                viol("table_complete", {}, "the table has more entries than cells x corners x 3")
+                entries = entries[:limit]
         except Exception as exc:  # noqa
             viol("table", {}, {"exception": repr(exc)})
             entries = None
@@ -261,10 +281,12 @@ def eval_unit(part, lib, patt, shm, cfg, warm=None):
             exp_min, exp_max = set(), set()
             for c, got in single.items():
                 if _is_int_list(got):
+                    got = got[:5]
                     exp_min.update((v, frozenset([c])) for v in got)
             exp_max |= exp_min
             for (a, b), got in pairs.items():
                 if _is_int_list(got) and abs(a[0] - b[0]) + abs(a[1] - b[1]) == 1:
+                    got = got[:5]
                     exp_max.update((v, frozenset([a, b])) for v in got)
                     if a < b:
                         exp_min.update((v, frozenset([a, b])) for v in got)
@@ -286,8 +308,9 @@ def eval_unit(part, lib, patt, shm, cfg, warm=None):
                 jobs.append(("addpoint", "default", lhs_pt, lambda c=c: p.add_point(c)))
                 for name, d in lib.dirs:
                     jobs.append(("addpoint", name, lhs_pt, lambda c=c, d=d: p.add_point(c, d)))
-                    jobs.append(("addpoint", name + "-kw", lhs_pt,
-                                 lambda c=c, d=d: p.add_point(c, shade_dir=d)))
+                    if cfg.get("kw"):
+                        jobs.append(("addpoint", name + "-kw", lhs_pt,
+                                     lambda c=c, d=d: p.add_point(c, shade_dir=d)))
             if "addpair" in subs and cfg["N"] >= k + 2 and k + 2 <= cfg["maxk"]:
                 jobs.append(("addpair", "increase", lhs_inc, lambda c=c: p.add_increase(c)))
                 jobs.append(("addpair", "decrease", lhs_dec, lambda c=c: p.add_decrease(c)))
@@ -307,13 +330,20 @@ def eval_unit(part, lib, patt, shm, cfg, warm=None):
                     continue
                 rhs = sem_of(qp).contain(X.mask_of(want_len, qs))
                 part.add(1, 1 if (lhs and lhs != base_set) else 0)
+                if lhs == rhs and name == "east" and k >= 1 and shading:
+                    part.sample({"pattern": patt, "shading": sorted(shading), "add_point": c, "dir": name,
+                                 "result": [list(qp), sorted(qs)],
+                                 "texts containing the result = texts with an entry in the cell":
+                                     bin(lhs).count("1"), "texts containing the pattern": bin(base_set).count("1")},
+                                cap=2)
                 if lhs != rhs:
-                    t = TEXTS[X.first_bit(lhs ^ rhs)]
-                    viol(sub, extra,
-                         {"result": [list(qp), sorted(qs)], "text": list(t),
-                          "text has an occurrence of p with %s in the cell" %
-                          ("an entry" if sub == "addpoint" else "such a pair"): bool(lhs >> TEXTS.index(t) & 1),
-                          "text contains the result": bool(rhs >> TEXTS.index(t) & 1)})
+                    def detail(sub=sub, qp=qp, qs=qs, lhs=lhs, rhs=rhs):
+                        ti = X.first_bit(lhs ^ rhs)
+                        return {"result": [list(qp), sorted(qs)], "text": list(TEXTS[ti]),
+                                "text has an occurrence of p with %s in the cell" %
+                                ("an entry" if sub == "addpoint" else "such a pair"): bool(lhs >> ti & 1),
+                                "text contains the result": bool(rhs >> ti & 1)}
+                    viol(sub, extra, detail)
                 if sub == "addpoint" and qp[c[0]] == c[1]:
                     # the four cells around the new point (it sits at index x with value y); the
                     # ones on the side named by the direction must be the shaded ones
@@ -500,9 +530,6 @@ def shard_units(shard):
         eval_unit(part, lib, patt, m, cfg, warm=sorted(X.cells_of(k, prev)))
         prev = m
     part.bump("units:" + cfgname, len(masks))
-    if masks:
-        m = masks[len(masks) // 2]
-        part.sample({"universe": cfgname, "pattern": patt, "shading": sorted(X.cells_of(len(patt), m))}, cap=1)
     return part
 
 
@@ -531,19 +558,23 @@ def run(ctx, only=None):
                 selftest="tables == definitions for all of Mesh<=2 on S<=4")
 
     small = {patt: all_masks(len(patt)) for k in range(0, 3) for patt in R.perms(k)}
-    CFG["mesh<=2"] = {"subs": subs, "pairs": "all", "cell_sizes": (1, 2, 3), "N": N, "maxk": maxk}
+    CFG["mesh<=2"] = {"subs": subs, "pairs": "all", "cell_sizes": (1, 2, 3), "N": N, "maxk": maxk,
+                      "kw": True}
     shards = make_shards(small, "mesh<=2", 8)
     fam3 = family(3, 2, 14)
-    CFG["family3"] = {"subs": subs, "pairs": "all", "cell_sizes": (1, 2), "N": N, "maxk": maxk}
+    CFG["family3"] = {"subs": subs, "pairs": "adjacent" if quick else "all", "cell_sizes": (1, 2),
+                      "N": N, "maxk": maxk}
     shards += make_shards(fam3, "family3", 16)
     bounds = {
         "texts": "S<=%d (%d permutations)" % (N, len(TEXTS)),
-        "mesh<=2": "all %d mesh patterns of length <= 2; all cells; all ordered pairs of cells; "
-                   "5 directions (+ default argument); all rectangles; cell sizes 1,2,3"
+        "mesh<=2": "all %d mesh patterns of length <= 2; all cells; all ordered pairs of cells (incl. "
+                   "equal and non-adjacent); 5 directions positional and by keyword + default "
+                   "argument; shade with <=2 cells; all rectangles; cell sizes 1,2,3 + default"
                    % sum(len(v) for v in small.values()),
         "family3": "%d patterns of length 3: every shading with <=2 or >=14 cells, every union of full "
-                   "rows/columns, code-base shadings; same queries, cell sizes 1,2"
-                   % sum(len(v) for v in fam3.values()),
+                   "rows/columns, code-base shadings; same queries (%s; directions positional), cell "
+                   "sizes 1,2" % (sum(len(v) for v in fam3.values()),
+                                  "both orders of every adjacent pair" if quick else "all ordered pairs"),
     }
     if not quick:
         lem = frozenset(s for s in subs if s in ("lemma1", "simul"))
@@ -598,7 +629,7 @@ def replay(ctx, rec):
     family_of = {"addpoint_dir": "addpoint", "lemma1_point": "lemma1", "simul_point": "simul", "table_key": "table",
                  "table_complete": "table"}
     subs = frozenset([family_of.get(sub, sub)]) if sub != "construct" else frozenset(ALL_SUBS)
-    cfg = {"subs": subs, "pairs": "all", "cell_sizes": (1, 2, 3), "N": N, "maxk": 5}
+    cfg = {"subs": subs, "pairs": "all", "cell_sizes": (1, 2, 3), "N": N, "maxk": 5, "kw": True}
     if sub in ("render",) and isinstance(case.get("cell_size"), int):
         cfg["cell_sizes"] = (case["cell_size"],)
     lib = Lib()
@@ -615,8 +646,10 @@ def replay(ctx, rec):
                 return v
         return None
 
-    v = attempt(None)
+    # first with the warm-up unit in front (state kept between calls shows up again, and running
+    # the unit alone first could itself prime such state), then alone
+    v = attempt(case.get("warm", case["shading"]))
     if v is None:
-        v = attempt(case.get("warm", case["shading"]))
+        v = attempt(None)
     if v is not None:
         ctx.violation(sub, case, v["detail"])
